@@ -14,6 +14,9 @@ CHECKS = {
  "C02": dict(text="JsonValue.tla gives the denotation of every RFC 8259 text (recursive-descent reading of the grammar JsonText recognises, exact decimals as digit sequences, escapes and surrogate pairs decoded to bytes, member lists with last-duplicate-wins) and the relation Allowed between a literal and what a parser may return (int64 equal; float64 whose two neighbouring midpoints enclose the literal; json.Number/gen.Big whose text denotes the same decimal; plain integers that fit int64 must be int). TLC checks the denotation total on every accepted text of the bounded exploration plus unit laws of the decimal arithmetic, enumerates number-literal shapes and string bodies from set expressions, and judges every value returned by 7 front-end variants (whole-buffer fast paths, 1-byte slow paths, tokenizer callbacks rebuilt with alt.Builder) in a trace specification.",
              note="Trusted: the harness computes the two midpoints around each RETURNED float64 with math/big (a fact about the format); JsonValue.tla as the reading of RFC 8259 section 6/7. Literal shapes are enumerated up to 22 (quick) / 40 (thorough) digits; other documents are sampled.",
              tech="TLA+ denotational spec (JsonValue) + TLC-enumerated literal shapes replayed into the parsers + TLC trace validation of returned values", ref="6/C02"),
+ "C03": dict(text="Chunking.tla models a reader that moves n bytes at a time into a window consumed by the JsonText automaton; TLC checks that Refill is a stuttering step (the outcome is a function of the byte sequence) and enumerates every composition of lengths 1..8, which the harness replays as Read sizes. For every input (JsonText transition cover, TLC-enumerated literals, random JSON/SEN/multi-document texts with mutations, documents aligned on the 4096/8192-byte refill) all front-ends and chunkings are run and the trace specification decides agreement: within the JSON family (oj.Parse, oj.ParseReader, tokenizer+Builder, gen.Parser+Simplify), within the SEN family, between the two on input JsonText accepts, and for the delivered document sequences in callback/func/channel mode; numbers are compared as exact decimals (with the rounding freedom C02 grants).",
+             note="Trusted: the harness projection (absval) and grouping of identical observations; equality itself is decided by TLC. Known systemic SEN defects (tokenizer grammar gap, bare tokens at refill boundaries) are listed as known findings with family-wide patterns, so chunked SEN reads and the SEN tokenizer are not protected; JSON-family agreement, SEN whole-buffer agreement and SEN-vs-JSON on valid JSON are strict.",
+             tech="TLA+ spec (Chunking over JsonText) + TLC-enumerated chunkings replayed into the readers + TLC trace validation of agreement", ref="6/C03"),
 }
 NA_REASON = "check not built yet in this round; planned with the TLA+ specification named in DESIGN.md section 6 (no different technique is substituted)"
 
